@@ -191,6 +191,10 @@ def replay_file(pid, path, verbose=True):
         if res.get("detail"):
             print("  detail: %s" % res["detail"])
         print("  event digest: %s (recorded %s)" % (res.get("digest"), doc.get("event_digest")))
+        bysig = dict((k["signature"], k) for k in load_known() if k.get("status") == "known")
+        for sg, n in sorted((res.get("known_hits") or {}).items()):
+            if sg in bysig:
+                print("KNOWN-FINDING: property=%s %s [%s]" % (pid, bysig[sg]["description"], bysig[sg]["id"]))
     same = (res["verdict"] == "violation" and res.get("sig") == doc.get("signature"))
     return res, same
 
